@@ -1,9 +1,10 @@
 (* Props/C08.v — connections are isolated: none waits for another; one worker per connection.
-   Statements only; proofs are in Conc/TaskPool.v (all label sequences: any number of workers,
+   Statements only; proofs are in Conc/TaskPool.v and Conc/TaskPoolFacts.v (all label sequences: any number of workers,
    dispatch bursts, wake-up orders; tasks need never finish). *)
 From Coq Require Import List Arith Lia.
 Import ListNotations.
-From TH Require Import Conc.TaskPool.
+From Coq Require Import Permutation.
+From TH Require Import Conc.TaskPool Conc.TaskPoolFacts.
 
 (* in every reachable state of the repaired pool every queued task (accepted connection) has its own
    awake worker: no queued connection ever needs another connection to end (no TaskDone label) *)
@@ -43,3 +44,91 @@ Example c08_example_repaired :
   | None => False
   end.
 Proof. vm_compute. split; reflexivity. Qed.
+
+(* ---- exactly one worker per accepted connection (proofs: Conc/TaskPoolFacts.v) ----
+   `dispatched ls` lists the task identifiers of the Dispatch labels of ls (TaskPool::spawn calls);
+   `held l` lists the tasks carried by freshly created threads that have not started them yet
+   (workers in state Spawned (Some tk)); `started s` is the log of task starts kept by the model. *)
+Theorem c08_held_spec :
+  forall (task : Type) (l : list (wstate task)) (tk : task),
+    In tk (held task l) <-> exists w, nth_error l w = Some (Spawned task (Some tk)).
+Proof. exact held_In. Qed.
+Print Assumptions c08_held_spec.
+
+(* along every run (of the repaired pool, fixed = true, and also of the tree as found), if the
+   dispatched connections are pairwise distinct then no connection is started twice, a started one is
+   neither queued nor held any more, and started ++ queued ++ held is exactly the dispatched set:
+   every accepted connection is run by exactly one worker step, never twice, never lost *)
+Theorem c08_one_worker_per_task :
+  forall (task : Type) (MIN IDLE BIG : nat) (fixed : bool) (ls : list (label task)) (s : st task),
+    run task MIN IDLE BIG fixed (init task MIN) ls = Some s ->
+    NoDup (dispatched task ls) ->
+    NoDup (started task s) /\
+    (forall tk, In tk (started task s) -> ~ In tk (todo task s)) /\
+    (forall tk, In tk (started task s) -> ~ In tk (held task (ws task s))) /\
+    NoDup (todo task s ++ held task (ws task s)) /\
+    Permutation (started task s ++ todo task s ++ held task (ws task s)) (dispatched task ls).
+Proof.
+  intros task MIN IDLE BIG fixed ls s H ND.
+  destruct (one_worker_per_task task MIN IDLE BIG fixed ls s H) as [P Q]. destruct (Q ND) as (A & B & C & D). auto.
+Qed.
+Print Assumptions c08_one_worker_per_task.
+
+(* the permutation needs no distinctness hypothesis *)
+Theorem c08_tasks_accounted :
+  forall (task : Type) (MIN IDLE BIG : nat) (fixed : bool) (ls : list (label task)) (s : st task),
+    run task MIN IDLE BIG fixed (init task MIN) ls = Some s ->
+    Permutation (started task s ++ todo task s ++ held task (ws task s)) (dispatched task ls).
+Proof. intros task MIN IDLE BIG fixed ls s H. exact (proj1 (one_worker_per_task task MIN IDLE BIG fixed ls s H)). Qed.
+Print Assumptions c08_tasks_accounted.
+
+(* liveness reading: from every reachable state of the repaired pool a schedule made only of worker
+   steps Start / Lock / Resume (no TaskDone: no running task ever ends; no Dispatch, PoolDrop, Tick,
+   Timeout, Spurious) empties the queue and starts every held task; afterwards every task dispatched
+   so far has been started *)
+Theorem c08_no_taskdone_needed :
+  forall (task : Type) (MIN IDLE BIG : nat), MIN < BIG ->
+  forall (ls0 : list (label task)) (s : st task),
+    run task MIN IDLE BIG true (init task MIN) ls0 = Some s ->
+    exists (ls : list (label task)) (s' : st task),
+      only_worker_steps task ls /\ run task MIN IDLE BIG true s ls = Some s' /\ todo task s' = [] /\
+      (forall w tk, nth_error (ws task s') w <> Some (Spawned task (Some tk))) /\
+      Permutation (started task s') (dispatched task ls0).
+Proof. exact every_task_starts. Qed.
+Print Assumptions c08_no_taskdone_needed.
+
+(* the same from any state satisfying the invariant (not only reachable ones) *)
+Theorem c08_no_taskdone_needed_inv :
+  forall (task : Type) (MIN IDLE BIG : nat), MIN < BIG ->
+  forall (s : st task), Inv task MIN s ->
+    exists (ls : list (label task)) (s' : st task),
+      only_worker_steps task ls /\ run task MIN IDLE BIG true s ls = Some s' /\ todo task s' = [] /\
+      (forall w tk, nth_error (ws task s') w <> Some (Spawned task (Some tk))) /\
+      held task (ws task s') = [] /\ Inv task MIN s'.
+Proof. exact no_taskdone_needed. Qed.
+Print Assumptions c08_no_taskdone_needed_inv.
+
+(* non-vacuity: a burst of five distinct connections on four idle workers, nobody has resumed yet:
+   four are queued, the fifth is held by a new thread, none has started *)
+Definition c08_burst : list (label nat) :=
+  [Start nat 0; Start nat 1; Start nat 2; Start nat 3; Lock nat 0; Lock nat 1; Lock nat 2; Lock nat 3;
+   Dispatch nat 1 (Some 0); Dispatch nat 2 (Some 1); Dispatch nat 3 (Some 2); Dispatch nat 4 (Some 3); Dispatch nat 5 None].
+Example c08_example_burst_distinct : dispatched nat c08_burst = [1; 2; 3; 4; 5] /\ NoDup (dispatched nat c08_burst).
+Proof.
+  split; [vm_compute; reflexivity|]. change (dispatched nat c08_burst) with [1; 2; 3; 4; 5].
+  repeat (constructor; [cbn; intuition discriminate|]). constructor.
+Qed.
+Example c08_example_burst_state :
+  match run nat 4 5 99 true (init nat 4) c08_burst with
+  | Some s => started nat s = [] /\ todo nat s = [1; 2; 3; 4] /\ held nat (ws nat s) = [5]
+  | None => False
+  end.
+Proof. vm_compute. repeat split; reflexivity. Qed.
+(* ... and a schedule of worker steps only starts all five; no TaskDone occurs *)
+Example c08_example_no_taskdone :
+  only_worker_steps nat [Start nat 4; Resume nat 0; Resume nat 1; Resume nat 2; Resume nat 3] /\
+  match run nat 4 5 99 true (init nat 4) (c08_burst ++ [Start nat 4; Resume nat 0; Resume nat 1; Resume nat 2; Resume nat 3]) with
+  | Some s => started nat s = [5; 1; 2; 3; 4] /\ todo nat s = [] /\ held nat (ws nat s) = []
+  | None => False
+  end.
+Proof. split; [repeat constructor|]. vm_compute. repeat split; reflexivity. Qed.
